@@ -147,6 +147,12 @@ func (e *Ev) ev(x ast.Expr) Val {
 	case *ast.StarExpr:
 		return e.evStar(x)
 	case *ast.FuncLit:
+		if !e.contract && e.fx.con != nil && e.fx.con.Options["closures"] == "unverified" {
+			// the literal is only handed over as a value; its body is NOT verified (stated by the
+			// contract option and listed in the evidence)
+			e.fx.trusted["the body of the function literal at "+e.fx.pos(x.Pos())+" is not verified (it is passed on as a value)"] = true
+			return VFuncParam{Nil: "false"}
+		}
 		e.unsupp(x, "function literal")
 	}
 	e.unsupp(x, "unsupported expression %T", x)
